@@ -108,3 +108,93 @@ pub fn policy() {
 pub fn policy() {
     println!("no-auto");
 }
+
+/// `lists` mode: one case per line, `<n> <op> <op> ...`; the real `LinkedList` / `PossibleCycles` / `LinkedQueue` run the
+/// operations on scratch boxes (hook `lists_run`), the answer is what can be observed after each operation.
+pub fn lists() {
+    use hooks::ListsOp as L;
+    let stdin = std::io::stdin();
+    let out = std::io::stdout();
+    let mut out = std::io::BufWriter::new(out.lock());
+    let idx = |o: &str| -> Option<bool> {
+        if o.ends_with('0') { Some(false) } else if o.ends_with('1') { Some(true) } else { None }
+    };
+    for line in stdin.lock().lines() {
+        let Ok(line) = line else { break };
+        let mut toks = line.split_whitespace();
+        let Some(n) = toks.next().and_then(|t| t.parse::<usize>().ok()) else {
+            let _ = writeln!(out, "bad");
+            continue;
+        };
+        let mut ops = Vec::new();
+        let mut bad = false;
+        for t in toks {
+            let parts: Vec<&str> = t.split(':').collect();
+            let op = match parts.as_slice() {
+                [o] => match *o {
+                    "pf" => Some(L::PcRemoveFirst),
+                    "qp" => Some(L::QueuePoll),
+                    "qd" => Some(L::QueueDrop),
+                    o if o.starts_with("lf") => idx(o).map(L::ListRemoveFirst),
+                    o if o.starts_with("ld") => idx(o).map(L::ListDrop),
+                    o if o.starts_with("ps") => idx(o).map(L::PcSwapList),
+                    _ => None,
+                },
+                [o, x] => x.parse::<usize>().ok().and_then(|x| match *o {
+                    "pa" => Some(L::PcAdd(x)),
+                    "pr" => Some(L::PcRemove(x)),
+                    "qa" => Some(L::QueueAdd(x)),
+                    "it" => Some(L::IncrementTracingCounter(x)),
+                    o if o.starts_with("la") => idx(o).map(|i| L::ListAdd(i, x)),
+                    o if o.starts_with("lr") => idx(o).map(|i| L::ListRemove(i, x)),
+                    o if o.starts_with("pm") => idx(o).map(|i| L::PcMarkSelfAndAppend(i, x.min(255) as u8)),
+                    _ => None,
+                }),
+                [o, x, m] => match (x.parse::<usize>().ok(), m.parse::<usize>().ok()) {
+                    (Some(x), Some(m)) if *o == "mk" => Some(L::Mark(x, m.min(255) as u8)),
+                    _ => None,
+                },
+                _ => None,
+            };
+            match op {
+                Some(op) => ops.push(op),
+                None => {
+                    bad = true;
+                    break;
+                }
+            }
+        }
+        let views = match std::panic::catch_unwind(|| hooks::lists_run(n, &ops)) {
+            Ok(v) => v,
+            Err(_) => {
+                // a debug assertion of lists.rs fired
+                let _ = writeln!(out, "panic");
+                continue;
+            }
+        };
+        let show = |l: &Vec<usize>| l.iter().map(|x| x.to_string()).collect::<Vec<_>>().join(",");
+        let opt = |o: Option<usize>| o.map(|x| x.to_string()).unwrap_or_else(|| "-".to_string());
+        let mut states: Vec<String> = views
+            .iter()
+            .map(|v| {
+                let lk = v.links.iter().map(|(a, b)| format!("{}/{}", opt(*a), opt(*b))).collect::<Vec<_>>().join(" ");
+                let mk = v.marks.iter().map(|x| x.to_string()).collect::<Vec<_>>().join(",");
+                let tc = v.tracing_counters.iter().map(|x| x.to_string()).collect::<Vec<_>>().join(",");
+                let r = match v.returned {
+                    None => ".".to_string(),
+                    Some(None) => "none".to_string(),
+                    Some(Some(x)) => x.to_string(),
+                };
+                format!(
+                    "l0={} l1={} p={}#{} q={} e={}{}{}{} lk={} mk={} tc={} r={}",
+                    show(&v.lists[0]), show(&v.lists[1]), show(&v.possible_cycles), v.possible_cycles_size, show(&v.queue),
+                    b(v.is_empty[0]), b(v.is_empty[1]), b(v.is_empty[2]), b(v.is_empty[3]), lk, mk, tc, r
+                )
+            })
+            .collect();
+        if bad {
+            states.push("bad-op".to_string());
+        }
+        let _ = writeln!(out, "{}", states.join(" | "));
+    }
+}
